@@ -813,15 +813,9 @@ func checkOwnership(c *Ctx) {
 			// the non-error continuation
 			var cont *ssa.BasicBlock
 			for e := range errs {
-				for _, r := range *e.Referrers() {
-					b, ok := r.(*ssa.BinOp)
-					if !ok || b.Op != token.NEQ || !isNilConst(b.Y) {
-						continue
-					}
-					for _, rr := range *b.Referrers() {
-						if iff, ok := rr.(*ssa.If); ok && blockReaches(call.Block(), iff.Block()) {
-							cont = iff.Block().Succs[1]
-						}
+				for _, nt := range nilTests(e) {
+					if blockReaches(call.Block(), nt.iff.Block()) {
+						cont = nt.isNil
 					}
 				}
 			}
